@@ -10,6 +10,7 @@ mod control;
 mod ord;
 mod termio;
 mod frag;
+mod handshake;
 mod framing;
 mod pid;
 
@@ -22,6 +23,7 @@ fn main() {
     std::panic::set_hook(Box::new(|_| {}));
     let f: fn(&str) -> String = match domain.as_str() {
         "frag" => frag::run_case,
+        "handshake" => handshake::run_case,
         "codec" => codec::run_case,
         "control" => control::run_case,
         "ord" => ord::run_case,
